@@ -26,6 +26,10 @@ func (params Params) ValidateParamsMintDenom() error {
 	if len(params.MintDenom) == 0 {
 		return fmt.Errorf("denom cannot be empty")
 	}
+	// sdk.NewCoin panics on a denom that is not a valid coin denomination
+	if err := sdk.ValidateDenom(params.MintDenom); err != nil {
+		return err
+	}
 	return nil
 }
 
